@@ -141,6 +141,18 @@ def api_answer(op, env):
                 return 'exc:' + type(e).__name__
         if kind == 'is_subhint':
             return bool(is_subhint(hint_of(op[1], env), hint_of(op[2], env)))
+        if kind == 'th_cls':
+            # a user-defined class (possibly a redefinition of a same-named one) through its wrapper
+            C = env['ns'].get(op[1])
+            if C is None:
+                return 'undefined'
+            w = TypeHint(C)
+            return [w.hint is C, bool(w.is_bearable(C())), bool(is_bearable(C(), C))]
+        if kind == 'sub_cls':
+            A, B = env['ns'].get(op[1]), env['ns'].get(op[2])
+            if A is None or B is None:
+                return 'undefined'
+            return [bool(is_subhint(A, B)), bool(TypeHint(A) <= TypeHint(B))]
         if kind == 'th_sub':
             return bool(TypeHint(hint_of(op[1], env)).is_subhint(TypeHint(hint_of(op[2], env))))
         if kind == 'eq':
